@@ -40,7 +40,9 @@ def instances(tier, seed):
             ('MPS', {'fam': 'ML', 'bn': False, 'wtype': 'layer', 'w': [2, 8], 'a': [4, 8]}, False), ('MPS', {'fam': 'ML', 'bn': False, 'wtype': 'layer', 'w': [2, 8], 'a': [4, 8]}, True),
             ('SuperNet', {'n': 2, 'kind': 'conv'}, False), ('SuperNet', {'n': 2, 'kind': 'conv'}, True),
             # a layer excluded from the search: with full_cost its (constant) cost is part of every metric
-            ('PIT', {'fam': 'X1', 'kind': 'conv', 'exclude': 'name'}, True, (False,))]
+            ('PIT', {'fam': 'X1', 'kind': 'conv', 'exclude': 'name'}, True, (False,)),
+            # training model with one activation quantizer (shared by a producer and its consumer) individually frozen in eval mode
+            ('MPS', {'fam': 'ML', 'bn': False, 'wtype': 'layer', 'w': [2, 8], 'a': [4, 8], 'frozen_q': True}, False, (True,))]
     if tier == 'thorough':
         cfgs += [('PIT', {'fam': 'X1', 'kind': 'conv', 'exclude': 'name'}, True, (True,)), ('PIT', {'fam': 'X1', 'kind': 'linear', 'exclude': 'type'}, True)]
         cfgs += [('PIT', {'fam': 'A1', 'K': 2, 'C': 2}, True), ('PIT', {'fam': 'W1', 'nd': 2}, True), ('MPS', {'fam': 'MD', 'wtype': 'layer', 'w': [2, 8], 'a': [4, 8]}, True),
@@ -74,6 +76,11 @@ def build(method, spec, full, training, wseed):
         from plinio.cost import params, ops
         w, model, shape = snlib.make_sn(spec, wseed, cost={'params': params, 'ops': ops}, full_cost=full)
     w.train(training)
+    if spec.get('frozen_q'):
+        from plinio.methods.mps.nn.qtz import MPSBaseQtz
+        for n_, q_ in w.named_modules():
+            if isinstance(q_, MPSBaseQtz) and n_.endswith('fc0.out_mps_quantizer'):
+                q_.eval()
     return w, shape
 
 
